@@ -13,9 +13,18 @@ def run(cx):
         loops = b.loops()
         cx.ob('TERM', 'chained_indices:loops', len(loops) == 1, 'chained_indices has one loop (while pairs is not empty)', found=str(len(loops)))
         dag = b.dag()
-        pairs = [l for l, loc in enumerate(b.locals) if loc['n'] == 'pairs']
-        working = [l for l, loc in enumerate(b.locals) if loc['n'] == 'working']
-        fwd = [l for l, loc in enumerate(b.locals) if loc['n'] == 'forward']
+        # loop state found by role, not by name: the list pairs are consumed from (swap_remove / pop), the chain being grown at both ends
+        # (the only vector with an insert), and the boolean direction flag assigned both constants inside the loop
+        lb = loops[0][1] if loops else ()
+        allm = [m for m in b.mutations() if m.bb in lb]
+        pairs = sorted({m.root for m in allm if m.callee == 'Vec::swap_remove'})
+        working = sorted({m.root for m in allm if m.callee == 'Vec::insert'})
+        fwd = []
+        for l, ds in b.defs().items():
+            if b.local_ty(l) == 'bool' and b.local_name(l):
+                vs = {simplify(dag.defdag(l, d)) for d in ds if d[0] in lb and d[2] == 'assign' and not d[3]['pl']['p']}
+                if ('const', True) in vs and ('const', False) in vs:
+                    fwd.append(l)
         ok_names = bool(pairs and working and fwd)
         cx.ob('ANCHOR', 'chained_indices:state', ok_names, 'loop state pairs / working / forward present')
         if ok_names and loops:
